@@ -1,24 +1,25 @@
 CONSTANTS
-  Rotations = {0, 1, 2, 3, 4, 5, 6, 7, 8, 9, 10, 11, 12, 13, 14, 15, 16, 17, 18, 19, 20, 21, 22, 23, 24, 25, 26}
+  Rotations = {0}
   Widths = {1}
-  TransportSets = {{"grpc"}, {"rest"}, {"grpc", "rest"}}
-  Namings = {"plain", "kw"}
-  NSvcs = {1, 2}
-  ReqPkgs = {"own", "dep"}
+  TransportSets = {{"grpc"}}
+  Namings = {"plain"}
+  NSvcs = {1}
+  ReqPkgs = {"own"}
   Flattens = {FALSE}
   FormSet = {"unary", "paged", "lro", "sstream", "cstream", "bidi", "void"}
   MaxCode = 1
-  AnyOrder = FALSE
+  AnyOrder = TRUE
   Mutant = "none"
-SPECIFICATION Spec
+SPECIFICATION TSpecification
+CONSTRAINT Progress
 INVARIANT Inv_TagsDistinct
 INVARIANT Inv_TagForm
-INVARIANT Inv_Inventory
 INVARIANT Inv_NoExtra
 INVARIANT Inv_Full
 INVARIANT Inv_Segments
 INVARIANT Inv_Cover
 INVARIANT Inv_Index
-INVARIANT Inv_Embed
 INVARIANT Inv_Exec
 INVARIANT Inv_NoRaise
+POSTCONDITION Accepted
+CHECK_DEADLOCK FALSE
